@@ -48,9 +48,9 @@ def check(ctx):
 
 
 MANIFEST = {
-    "technique": "static analysis: writer/reader member tables extracted from MIR (constants, resolved generic arguments, None-arm classification) and cross-checked; range-guard dominance for float casts; all-paths field coverage",
+    "technique": "static analysis: writer/reader member tables extracted from MIR (constants, resolved generic arguments, None-arm classification) and cross-checked; range-guard dominance for float casts; all-paths field coverage; path-condition truth tables and must-pass-through on the reader / writer CFGs (members read before Ok, optional members complete, refusal conditions, nothing dropped, typed deserializers); R-TZ",
     "level": "Decides the structural necessary conditions of the Hayson round trip for every kind at once: nothing the writer emits is dropped or read "
     "with the wrong JSON type, nothing the reader requires can be missing, tags and dispatch agree, no field of a value is skipped, and integral "
-    "numbers are only written as JSON integers inside the i64 range (the pinned tree saturated 1e19 to i64::MAX). Tests round-trip a few sample values.",
+    "numbers are only written as JSON integers inside the i64 range (the pinned tree saturated 1e19 to i64::MAX); on every path an optional member is written when its field is present and read before a success is returned, the reader drops and refuses nothing by value, and timestamps are rebuilt through the offset. Tests round-trip a few sample values.",
     "note": "Partial claim (clauses). Trusted: serde_json's documented Serializer behaviour, rustc MIR.",
 }
